@@ -80,9 +80,21 @@ def real_address(tok):
         return False
 
 
+_OCC = {}
+
+
 def occurrences(line):
     """all (i, j) such that line[i:j] is an address bounded on the left by line start or a
     delimiter and on the right by a delimiter (line includes its final newline)."""
+    r = _OCC.get(line)
+    if r is None:
+        if len(_OCC) > 4096:
+            _OCC.clear()
+        r = _OCC[line] = _occurrences(line)
+    return r
+
+
+def _occurrences(line):
     n = len(line)
     starts = [i for i in range(n) if line[i] in STARTC and (i == 0 or is_delim(line[i - 1]))]
     ends = [j for j in range(1, n + 1) if line[j - 1] in ENDC and (j == n or is_delim(line[j]))]   # end of text counts
@@ -139,9 +151,165 @@ def needed(stream):
     return need
 
 
-def leaks(stream, out):
+# ---- coverage: the whole occurrence must lie inside a replaced range of the output (C07_covers_all)
+
+_V4TOK = re.compile(rb"\d{1,3}(?:\.\d{1,3}){3}(?::\d{1,5})?")
+WS = set(b"\t\n\x0c\r ")
+COVER_STATS = {"lines_aligned": 0, "occurrences_checked": 0, "excluded_dotted_run": 0, "colon_exception_used": 0,
+               "lines_without_alignment": 0}
+
+
+def dotted_run(line, i, j):
+    """the occurrence line[i:j] is a dotted quad (with or without port) that continues a run of dotted numbers:
+    the class C07_covers_all excludes (C07_r2_dotted_run_refuted shows why)"""
+    return (i >= 2 and line[i - 1] == 0x2E and 0x30 <= line[i - 2] <= 0x39 and _V4TOK.fullmatch(line, i, j) is not None)
+
+
+def find_all(hay, needle):
+    out, i = [], hay.find(needle)
+    while i != -1:
+        out.append(i)
+        i = hay.find(needle, i + 1)
+    return out
+
+
+def alignments(line, out):
+    """Every way to read `out` as `line` with n non-empty ranges replaced by the placeholder:
+       line = lit0 X1 lit1 X2 ... Xn litn,  out = lit0 [scrubbed] lit1 ... [scrubbed] litn.
+    Returns None when there is none, else a list with one entry per range r:
+       (amin, bmax, bset)  amin = the smallest possible start of Xr, bmax = the largest possible end,
+                           bset(b) = can Xr end at b?
+    The start of Xr is constrained only by what precedes, its end only by what follows, so (a, b) is the r-th range of
+    some alignment iff a is a possible start, b a possible end and a < b."""
+    lits = out.split(SCRUBBED)
+    n = len(lits) - 1
+    if n == 0:
+        return [] if line == out else None
+    if not line.startswith(lits[0]) or not line.endswith(lits[n]) or sum(map(len, lits)) + n > len(line):
+        return None
+    occ = [None] + [find_all(line, lits[r]) if lits[r] else None for r in range(1, n)]      # None = every position
+    amin = [None] * (n + 1)
+    amin[1] = len(lits[0])
+    for r in range(1, n):                      # start of X(r+1) = end of an occurrence of lit r that begins after amin[r]
+        if occ[r] is None:
+            amin[r + 1] = amin[r] + 1
+        else:
+            c = [p for p in occ[r] if p > amin[r]]
+            if not c:
+                return None
+            amin[r + 1] = c[0] + len(lits[r])
+    bmax = [None] * (n + 2)
+    bmax[n] = len(line) - len(lits[n])
+    for r in range(n - 1, 0, -1):              # end of Xr = begin of an occurrence of lit r that ends before bmax[r+1]
+        if occ[r] is None:
+            bmax[r] = bmax[r + 1] - 1
+        else:
+            c = [p for p in occ[r] if p + len(lits[r]) < bmax[r + 1]]
+            if not c:
+                return None
+            bmax[r] = c[-1]
+    res = []
+    for r in range(1, n + 1):
+        if amin[r] >= bmax[r]:
+            return None
+        if r == n:
+            bset = (lambda b, e=bmax[n]: b == e)
+        elif occ[r] is None:
+            bset = (lambda b, lo=amin[r], hi=bmax[r]: lo < b <= hi)
+        else:
+            bset = (lambda b, ps=frozenset(occ[r]), ln=len(lits[r]), nx=bmax[r + 1]: b in ps and b + ln < nx)
+        res.append((amin[r], bmax[r], bset))
+    return res
+
+
+STRICT_DOTTED = os.environ.get("VERIF_C07_STRICT") == "1"     # literal reading of the property: '.' is punctuation
+
+
+def uncovered(line, out):
+    """occurrences of `line` that no reading of `out` covers: [(i, j, touched, in_dotted_run)], or None when `out` is
+    not `line` with ranges replaced by the placeholder. touched = some replaced range can overlap the occurrence."""
+    al = alignments(line, out)
+    if al is None:
+        return None
+    COVER_STATS["lines_aligned"] += 1
+    bad = []
+    for (i, j) in occurrences(line):
+        dr = dotted_run(line, i, j)
+        if dr and not STRICT_DOTTED:
+            COVER_STATS["excluded_dotted_run"] += 1
+            continue
+        COVER_STATS["occurrences_checked"] += 1
+        colon = line[j - 1] == 0x3A and j < len(line) and line[j] in WS
+        ok = False
+        for (amin, bmax, bset) in al:
+            if amin <= i and bmax >= j:
+                ok = True
+                break
+            if amin <= i and colon and bset(j - 1):
+                COVER_STATS["colon_exception_used"] += 1
+                ok = True
+                break
+        if not ok:
+            bad.append((i, j, any(amin < j and bmax > i for (amin, bmax, _) in al), dr))
+    return bad
+
+
+_COVER = {}
+
+
+def coverage_leak(stream, out, multiset=False):
+    """(key, text) when a delimited address of a complete line of `stream` is not inside a replaced range of the
+    corresponding output line (in every possible reading of the output), else None.
+    multiset: the output lines are sorted (concurrent writers): a stream line may correspond to any output line."""
+    ck = (stream, out, multiset)
+    if ck in _COVER:
+        return _COVER[ck]
+    res = None
+    slines = stream.split(b"\n")
+    olines = out.split(b"\n")
+    # a placeholder never contains a newline and a newline is never replaced: same number of lines
+    if len(slines) == len(olines):
+        slines = [l + b"\n" for l in slines[:-1]] + [slines[-1]]
+        olines = [l + b"\n" for l in olines[:-1]] + [olines[-1]]
+        pairs = []
+        if multiset:
+            pool = {}
+            for o in olines:
+                pool.setdefault(o, 0)
+                pool[o] += 1
+            for l in slines:
+                cands = [o for o in pool if alignments(l, o) is not None]
+                pairs.append((l, cands))
+        else:
+            pairs = [(l, [o]) for l, o in zip(slines, olines)]
+        for l, cands in pairs:
+            if SCRUBBED not in b"".join(cands) and not occurrences(l):
+                continue
+            results = [uncovered(l, o) for o in cands]
+            results = [r for r in results if r is not None]
+            if not results:
+                COVER_STATS["lines_without_alignment"] += 1
+                continue
+            if all(results):
+                i, j, touched, dr = min(results, key=len)[0]
+                o = cands[0]
+                res = ("dotted-run-address-partially-survives" if dr else "address-partially-survives" if touched else "address-survives",
+                       "address %r (bytes %d..%d of the line %r) is not inside a replaced range of the scrubber output %r%s"
+                       % (l[i:j].decode("latin1"), i, j, l[:200].decode("latin1"), o[:200].decode("latin1"),
+                          ": a part of it is left in the output" if touched else ""))
+                break
+    if len(_COVER) > 512:
+        _COVER.clear()
+    _COVER[ck] = res
+    return res
+
+
+def leaks(stream, out, multiset=False):
     """stream: bytes given to the scrubber (complete lines); out: what reached the sink.
-    Returns (key, text) of the first leak or None."""
+    Returns (key, text) of the first leak or None.  Two tests: (1) a bounded address of the input still appears
+    verbatim in the output more often than its unbounded occurrences allow; (2) coverage: every bounded address
+    lies inside one replaced range, in some reading of the output as the input with ranges replaced
+    (partial survival: a prefix, suffix or inner piece of the address is left)."""
     need = needed(stream)
     for tok, pos in sorted(need.items(), key=lambda kv: kv[1][0]):
         allowed = count_overlapping(stream, tok) - len(pos)
@@ -152,7 +320,7 @@ def leaks(stream, out):
                 if pref in keys:
                     return pref, "address %r survives in the scrubber output %r" % (tok.decode("latin1"), out[:200].decode("latin1"))
             return keys[0], "address %r survives in the scrubber output %r" % (tok.decode("latin1"), out[:200].decode("latin1"))
-    return None
+    return coverage_leak(stream, out, multiset)
 
 
 def occurrences_by_line(stream):
@@ -273,7 +441,7 @@ def prop(line, impl, model):
             if lk:
                 return lk[1]
         else:
-            lk = leaks(conc_stream(a[2]), out)
+            lk = leaks(conc_stream(a[2]), out, multiset=True)
             if lk:
                 return lk[1]
     return None
@@ -310,7 +478,7 @@ def key_of(line, impl, model):
         stream = b"".join(unhex(x[1:] or "-") for x in a[2].split(","))
         lk = leaks(complete_part(stream), out or b"")
         return lk[0] if lk else "write"
-    lk = leaks(conc_stream(a[2]), out or b"")
+    lk = leaks(conc_stream(a[2]), out or b"", multiset=True)
     return lk[0] if lk else "conc"
 
 
@@ -389,6 +557,11 @@ SEPS = [" ", " ", ", ", ",", ";", " and ", "\t", ") (", "|", "=", " -> ", "' '",
 FILL = ["test", "http2: panic serving", "a=fingerprint:sha-256 33:B6:FA:F6:94:CA:74:61:45:4A:D2:1F:2C:2F:75:8A", "2019/05/08 15:37:31 starting",
         "error: dial tcp", "12:34:56", "x_y", "v1.2.3", "1.2.3", "dead:beef", "a:b:c:d", "::", ":", "1.2.3.4.5", "fe80", "ok", "i/o timeout",
         "deadbeef", "0x1f", "[]", "[:]", "1234567.1.1.1", "aaaaa::1", "1::2::3", "1.2.3.4:999999", "256.1.1.1"]
+
+
+COVER_L = ["", ".", "x.", "host.", "v1.", "[", "]", "a]", "[::1]", "(", "-", "\xe9", "1.2.3.4 ", "::1 ", "ab.", "9-", "1.2.3.4,", "[1::]:80 ", "\xc3\xa9"]
+COVER_R = ["", ".", ".5", ".5.6.7.8", ". ", "]", "]:80", "[", " ", "\t", ",", ")", ".x", "-1", "\r", " ::1", ";x", "\xff"]
+DOTTED_L = ["1.", "1.2.", "1.2.3.", "x 10.0.0.", "::1.2.3.", "a 1.2.3.4.", "(255."]
 
 
 def L1(s):
@@ -487,6 +660,34 @@ def gen_scrub(ctx, add):
             else:
                 a.insert(p, rng.choice(alpha))
         add("%s scrub %s" % (AREA, hx(bytes(a))), "scrub-mutated-address")
+    # 7. coverage (C07_covers_all): every address form in contexts where a match of the pattern could begin before the
+    #    address (delimiters '.', '[', ']' also occur inside addresses) or end inside it ('.', ']' or ':' + whitespace)
+    forms = []
+    for i in range(0, 8):
+        for j in range(0, 8 - i):
+            forms.append((lambda i=i, j=j: groups(rng, i) + "::" + groups(rng, j), "compressed", True))
+    for i in range(0, 6):
+        for j in range(0, 6 - i):
+            forms.append((lambda i=i, j=j: groups(rng, i) + "::" + (groups(rng, j) + ":" if j else "") + v4(rng), "compressed-v4tail", True))
+    forms += [(lambda: groups(rng, 8), "full", True), (lambda: groups(rng, 6) + ":" + v4(rng), "full-v4tail", True),
+              (lambda: v4(rng), "v4", False), (lambda: v4(rng) + ":" + port(rng), "v4-port", False)]
+    per_form = 60 if thorough else 6
+    for f, fk, v6 in forms:
+        for deco in ((0, 1, 2) if v6 else (0,)):
+            for _ in range(per_form):
+                t = f()
+                t = [t, "[" + t + "]", "[" + t + "]:" + port(rng)][deco]
+                l, r = rng.choice(COVER_L), rng.choice(COVER_R)
+                add("%s scrub %s" % (AREA, hx(L1(l + t + r + "\n"))), "scrub-cover-" + fk + ["", "-bracket", "-bracket-port"][deco])
+    # the class C07_covers_all excludes (a dotted quad continuing a run of dotted numbers), and the colon exception
+    for l in DOTTED_L:
+        for t in (v4(rng), v4(rng) + ":" + port(rng), "4.5.6.7"):
+            for r in (" ", ".", ".9", "\n"):
+                add("%s scrub %s" % (AREA, hx(L1(l + t + r + "\n"))), "scrub-dotted-run")
+    for l in ("", "x ", "("):
+        for r in (" ", "\t", "\n", "\r\n", " y\n", ")", ". ", ""):
+            for t in (groups(rng, 7) + "::", groups(rng, 6) + "::", groups(rng, 5) + "::", "::", groups(rng, 1) + "::"):
+                add("%s scrub %s" % (AREA, hx(L1(l + t + r))), "scrub-trailing-colons")
     for s in ["", "\n", "::\n", ":\n", "[::]\n", "1.2.3.4", "1.2.3.4 5.6.7.8\n", "::1 ::2\n", "1.2.3.4\n5.6.7.8\n",
               "1:2:3:4:5:6:7::\n", "[::1:2:3:4:5:6:7]\n", "::a:b:c:d:e:f:abcd\n", "[1:2:3:4:5:6:abcd::]:80 y\n"]:
         add("%s scrub %s" % (AREA, hx(L1(s))), "scrub-fixed")
@@ -761,16 +962,121 @@ def inclusion_counterword(ctx, exe):
     ctx.correspond(exe, lines, kinds, label="inclusion-counterword", prop=prop, key_of=key_of, crosscheck=0)
 
 
+OCT8 = ["0", "1", "9", "10", "99", "255", "256", "01"]
+PORTS = ["0", "1", "80", "65535", "65536", "99999", "100000", "", "08080", "-1", "x"]
+HEXS = ["0", "1", "a", "F", "ff", "abc", "ffff", "0000", "Dead"]
+
+
+def net_candidates():
+    """Exhaustive small scopes of address spellings (valid and invalid), as [(text, kind)]:
+       IPv4: every combination of 8 boundary octet spellings in 4 positions, 1..6 components, every port spelling;
+       IPv6: 1..9 groups without "::"; "::" at every position with every group count on both sides (0..8 / 0..8);
+             one group replaced by a 5-digit / non-hex / empty group at every position; dotted tails after every
+             group count with and without "::" and with boundary octets;
+       decorations: brackets, brackets and port (every port spelling), port without brackets, unbalanced / doubled
+             brackets, zone identifiers (not named by the property: net.ParseIP rejects them)."""
+    out = []
+    for a in OCT8:
+        for b in OCT8:
+            for c in OCT8:
+                for d in OCT8:
+                    out.append((".".join((a, b, c, d)), "v4-octets"))
+    for n in range(1, 7):
+        out.append((".".join(str(k + 1) for k in range(n)), "v4-components"))
+    for o in ["", "1234", "0x1", "1e1", " 1", "-1", "١"]:
+        out.append(("1.2.3." + o, "v4-octet-malformed"))
+    for host in ["0.0.0.0", "255.255.255.255", "1.2.3.4", "256.1.1.1", "1.2.3"]:
+        for p in PORTS:
+            out.append((host + ":" + p, "v4-port"))
+
+    def grp(k):
+        return HEXS[k % len(HEXS)]
+
+    def gs(n, k0=0):
+        return ":".join(grp(k0 + k) for k in range(n))
+
+    bases = []
+    for n in range(1, 10):
+        out.append((gs(n), "v6-%d-groups" % n))
+        if n == 8:
+            bases.append(gs(n))
+    for i in range(0, 9):
+        for j in range(0, 9):
+            t = gs(i) + "::" + gs(j, i)
+            out.append((t, "v6-compressed"))
+            if i + j <= 7:
+                bases.append(t)
+            total = i + j
+            for pos in range(total):                      # one malformed group
+                for badg in ("12345", "g", "1.2"):
+                    g = [grp(k) for k in range(total)]
+                    g[pos] = badg
+                    out.append((":".join(g[:i]) + "::" + ":".join(g[i:]), "v6-compressed-bad-group"))
+    for t in ["1::2::3", ":::", ":", "::", "1:::2", ":1::2", "1::2:", "1:2:3:4:5:6:7:8:", ":1:2:3:4:5:6:7:8", "::1:2:3:4:5:6:7:8", "1:2:3:4:5:6:7:8::"]:
+        out.append((t, "v6-colons"))
+    for n in range(0, 9):
+        t = (gs(n) + ":" if n else "") + "1.2.3.4"
+        out.append((t, "v6-v4tail-full"))
+        if n == 6:
+            bases.append(t)
+    for i in range(0, 7):
+        for j in range(0, 7):
+            for q in ("1.2.3.4", "255.255.255.255", "0.0.0.0", "256.1.1.1", "1.2.3", "01.2.3.4"):
+                t = gs(i) + "::" + (gs(j, i) + ":" if j else "") + q
+                out.append((t, "v6-compressed-v4tail"))
+                if i + j <= 5 and q == "1.2.3.4":
+                    bases.append(t)
+    for t in ["::1.2.3.4:5", "1.2.3.4::", "::1.2.3.4::", "1.2.3.4:5::", "::ffff:1.2.3.4.5", "::.1.2.3", "::1.2.3.4."]:
+        out.append((t, "v6-v4tail-misplaced"))
+    bases += ["1.2.3.4", "0.0.0.0"]
+    for t in bases:
+        out.append(("[" + t + "]", "decor-bracket"))
+        for p in PORTS:
+            out.append(("[" + t + "]:" + p, "decor-bracket-port"))
+        out.append((t + ":80", "decor-port-no-bracket"))
+        for q in ("[" + t, t + "]", "[[" + t + "]]", "[" + t + "]x", "[" + t + "]80", "[" + t + "]:", "[]" + t, "[" + t + "]:80:90"):
+            out.append((q, "decor-malformed"))
+        for q in (t + "%eth0", "[" + t + "%eth0]", "[" + t + "%eth0]:80", t + "%1", "[" + t + "%25eth0]:80"):
+            out.append((q, "decor-zone"))
+    return out
+
+
+def net_printed():
+    """(ip bytes, port): every pattern of zero / non-zero groups of an IPv6 address (two non-zero values), IPv4-mapped
+    and IPv4-compatible addresses, every combination of 7 boundary octets of an IPv4 address"""
+    ips = []
+    for mask in range(256):
+        for val in (1, 0xABCD):
+            ips.append(b"".join((val if mask >> k & 1 else 0).to_bytes(2, "big") for k in range(8)))
+    for q in (b"\x01\x02\x03\x04", b"\x00\x00\x00\x00", b"\xff\xff\xff\xff"):
+        ips.append(b"\x00" * 10 + b"\xff\xff" + q)
+        ips.append(b"\x00" * 12 + q)
+        ips.append(b"\x00\x64\xff\x9b" + b"\x00" * 8 + q)
+    B = [0, 1, 9, 10, 99, 100, 255]
+    for a in B:
+        for b in B:
+            for c in B:
+                for d in B:
+                    ips.append(bytes((a, b, c, d)))
+    ports = [(0, 1, 80, 65535)[k % 4] for k in range(len(ips))]
+    return ips, ports
+
+
 def spec_vs_net(ctx, exe):
     """addr_spec (the hand-written regex the theorems quantify over) against Go's net package: whatever
     net.ParseIP / SplitHostPort accept and whatever net.IP.String / net.TCPAddr.String print must be a word of
-    addr_spec. A miss is a gap of the specification (reported as `no longer shown`), not of safelog."""
+    addr_spec. A miss is a gap of the specification (reported as `no longer shown`), not of safelog.
+    Exhaustive over the small scopes of net_candidates / net_printed, plus mutated random spellings."""
     rng = ctx.rng
-    n = 600 if ctx.tier == "quick" else 6000
-    cands = []
+    n = 300 if ctx.tier == "quick" else 6000
+    cands, ckinds = [], []
+    for t, k in net_candidates():
+        cands.append(t.encode("utf8"))
+        ckinds.append(k)
+    nexh = len(cands)
     for _ in range(n):
         a = address(rng)[0]
-        if rng.random() < 0.3:
+        if rng.random() < 0.5:
             b = bytearray(L1(a))
             p = rng.randrange(len(b))
             m = rng.random()
@@ -782,27 +1088,281 @@ def spec_vs_net(ctx, exe):
                 b.insert(p, rng.choice(b"0123456789abcdefF:."))
             a = bytes(b).decode("latin1")
         cands.append(L1(a))
-    rc, acc, err = vlib.run_impl(exe, ["%s accepts %s" % (AREA, hx(c)) for c in cands])
-    spec = vlib.run_model(["%s spec %s" % (AREA, hx(c)) for c in cands])
-    for c, a, sp in zip(cands, acc, spec):
-        ctx.count("spec accepts " + c.hex(), kind="spec-vs-net-accepts-" + ("accepted" if a == "1" else "rejected"))
+        ckinds.append("random")
+    cands_u = list(dict.fromkeys(cands))
+    rc, acc, err = vlib.run_impl(exe, ["%s accepts %s" % (AREA, hx(c)) for c in cands_u])
+    spec = vlib.run_model(["%s spec %s" % (AREA, hx(c)) for c in cands_u])
+    acc_of, spec_of = dict(zip(cands_u, acc)), dict(zip(cands_u, spec))
+    stat = {}
+    misses = 0
+    for c, k in zip(cands, ckinds):
+        a, sp = acc_of.get(c), spec_of.get(c)
+        ctx.count("spec accepts " + c.hex(), kind="spec-vs-net-%s-%s" % (k, "accepted" if a == "1" else "rejected"))
+        st = stat.setdefault(k, dict(candidates=0, net_accepts=0, in_addr_spec=0))
+        st["candidates"] += 1
+        st["net_accepts"] += a == "1"
+        st["in_addr_spec"] += sp == "1"
         if a == "1" and sp != "1":
-            ctx.not_shown("addr_spec does not contain %r, which Go's net package accepts" % c.decode("latin1"))
-    ips = []
+            misses += 1
+            if misses <= 5:
+                ctx.not_shown("addr_spec does not contain %r, which Go's net package accepts" % c.decode("latin1"))
+    ips, ports = net_printed()
+    nprint_exh = len(ips)
     for _ in range(n // 2):
-        if rng.random() < 0.25:
-            ips.append(bytes(rng.choice([0, 1, 9, 10, 99, 100, 255, rng.randrange(256)]) for _ in range(4)))
-        else:
-            g = [rng.choice([0, 0, 0, 1, 0xffff, 0xabcd, rng.randrange(65536)]) for _ in range(8)]
-            ips.append(b"".join(x.to_bytes(2, "big") for x in g))
-    ports = [rng.choice([0, 1, 80, 443, 65535, rng.randrange(65536)]) for _ in ips]
+        g = [rng.choice([0, 0, 0, 1, 0xffff, 0xabcd, rng.randrange(65536)]) for _ in range(8)]
+        ips.append(b"".join(x.to_bytes(2, "big") for x in g))
+        ports.append(rng.choice([0, 1, 80, 443, 65535, rng.randrange(65536)]))
     rc, pr, err = vlib.run_impl(exe, ["%s prints %s %d" % (AREA, hx(b), p) for b, p in zip(ips, ports)])
-    printed = [bytes.fromhex(x) for r in pr for x in r.split(" ")]
+    printed = list(dict.fromkeys(bytes.fromhex(x) for r in pr for x in r.split(" ")))
     spec = vlib.run_model(["%s spec %s" % (AREA, hx(c)) for c in printed])
     for c, sp in zip(printed, spec):
         ctx.count("spec prints " + c.hex(), kind="spec-vs-net-printed")
         if sp != "1":
-            ctx.not_shown("addr_spec does not contain %r, which Go's net package prints" % c.decode("latin1"))
+            misses += 1
+            if misses <= 5:
+                ctx.not_shown("addr_spec does not contain %r, which Go's net package prints" % c.decode("latin1"))
+    ctx.extra["spec_vs_net"] = dict(
+        how="addr_spec must contain every spelling Go's net package accepts (net.ParseIP, net.SplitHostPort + ParseIP, "
+            "brackets without port) or prints (net.IP.String, net.TCPAddr.String); exhaustive over the scopes below",
+        accepts_candidates_exhaustive=nexh, accepts_candidates_random=len(cands) - nexh, by_scope=stat,
+        printed_ips_exhaustive=nprint_exh, printed_ips_random=len(ips) - nprint_exh, printed_spellings_distinct=len(printed),
+        scopes=net_candidates.__doc__.strip(), printed_scopes=net_printed.__doc__.strip(),
+        zone_note="zone identifiers (fe80::1%eth0) are not named by the property; net.ParseIP rejects them and addr_spec "
+                  "does not contain them (scope decor-zone: 0 accepted)",
+        spec_misses=misses)
+
+
+# ------------------------------------------------------------------ call sites: event strings and the mains' log wiring
+
+NSHAPES = 16
+EVENT_PREFIX = {"o": ("offer", b"offer creation failure "), "b": ("broker", b"broker failure "), "f": ("failed", b"trying a new proxy: ")}
+SHAPE_NAMES = ["dial-tcp-refused", "read-udp-a-b", "dns-server", "addrerror", "operror-addrerror", "url-dial", "wrapped-fmt",
+               "nested-operror", "dns-name-is-ip", "parseerror", "url-read-tcp", "joined-two-lines", "ipaddr-zone", "plain-text",
+               "tcpaddr-zone-dns", "after-dotted-text"]
+
+
+def bare_ip(rng):
+    """textual IP for net.ParseIP: IPv4, or IPv6 in one of its spellings (no brackets / port)"""
+    if rng.random() < 0.4:
+        return v4(rng)
+    while True:
+        t, k = ip6(rng)
+        try:
+            ipaddress.ip_address(t)
+            return t
+        except ValueError:
+            continue
+
+
+def event_strings(ctx, exe):
+    """common/event: String() of the three events that carry an error, for error chains of the kinds Go's net, net/url
+    and net/http produce (driver op `event`, 16 shapes), with IPv4 / IPv6 addresses in every position.
+    Model: String() = fixed text ++ scrub(error text) (op evstr; theorem C07_event_string_covered).
+    Property: every bounded address of the error text lies inside a replaced range of the string (same predicate as
+    for the scrubber)."""
+    rng = ctx.rng
+    cases = []
+    fams = [(a, b, c, d) for a in (4, 6) for b in (4, 6) for c in (4, 6) for d in (4, 6)]
+    reps = 1 if ctx.tier == "quick" else 12
+    for shape in range(NSHAPES):
+        for fam in fams * reps:
+            ips = []
+            for f in fam:
+                ips.append(v4(rng) if f == 4 else bare_ip_v6(rng))
+            ports = [port(rng) for _ in range(4)]
+            zone = rng.choice(["eth0", "1", "wlan0", "-"]) if shape in (12, 14) else "-"
+            if zone != "-" and ":" not in ips[0]:
+                zone = "-"
+            cases.append(("%s event %d %s %s %s" % (AREA, shape, ",".join(hx(L1(i)) for i in ips), ",".join(ports), zone),
+                          "event-%s" % SHAPE_NAMES[shape]))
+    lines = [c for c, _ in cases]
+    rc, impl, err = vlib.run_impl(exe, lines)
+    if rc != 0 or len(impl) != len(lines):
+        ctx.violation("driver-crash", "implementation driver died (rc=%s) on the event cases: %s" % (rc, err[-600:]),
+                      dict(label="event-strings", case=lines[len(impl)] if len(impl) < len(lines) else None))
+        return
+    mlines, owners = [], []
+    parsed = []
+    for (l, k), r in zip(cases, impl):
+        ctx.count(l, kind=k)
+        m = re.fullmatch(r"e=(\S+) o=(\S+) b=(\S+) f=(\S+)", r)
+        if not m:
+            ctx.violation("driver-crash", "event case answered %s" % r[:200], dict(label="event-strings", case=l, impl=r[:2000]))
+            parsed.append(None)
+            continue
+        etxt = unhex(m.group(1))
+        parsed.append((etxt, dict(o=unhex(m.group(2)), b=unhex(m.group(3)), f=unhex(m.group(4)))))
+        for t in "obf":
+            mlines.append("%s evstr %s %s" % (AREA, EVENT_PREFIX[t][0], hx(etxt)))
+            owners.append((len(parsed) - 1, t))
+    model = vlib.run_model(mlines)
+    ndis = nleak = 0
+    for (idx, t), ml, mo in zip(owners, mlines, model):
+        l, k = cases[idx]
+        etxt, strs = parsed[idx]
+        got = strs[t]
+        pre = EVENT_PREFIX[t][1]
+        lk = leaks(pre + etxt, got)
+        if lk:
+            nleak += 1
+            ctx.violation("event-string-leaks",
+                          "String() of the %s event leaks an address of its error: error text %r -> %r (%s)"
+                          % (EVENT_PREFIX[t][0], etxt.decode("latin1"), got.decode("latin1"), lk[1][:300]),
+                          dict(label="event-strings", case=l, impl=impl[idx][:4000], model=mo[:2000], event=EVENT_PREFIX[t][0]))
+        elif unhex(mo) != got:
+            ndis += 1
+            if ndis <= 3:
+                ctx.not_shown("correspondence event-strings: String() of the %s event for the error text %r is %r, the model "
+                              "(fixed text ++ scrub) gives %r; the property predicate found no failure on it (case `%s`)"
+                              % (EVENT_PREFIX[t][0], etxt.decode("latin1"), got.decode("latin1"), unhex(mo).decode("latin1"), l[:300]))
+    # the model op on the implementation too (errors.New(text)): ordinary correspondence, a sample of the texts
+    sample = list(dict.fromkeys(mlines))
+    rng.shuffle(sample)
+    sample = sample[:150 if ctx.tier == "quick" else 1500]
+    ctx.correspond(exe, sample, ["evstr-model-op"] * len(sample), label="evstr", crosscheck=4,
+                   prop=lambda l, r, m: None, key_of=None)
+    ctx.extra["event_strings"] = dict(
+        chains=len(cases), shapes=SHAPE_NAMES, strings_compared=len(mlines), leaks=nleak, disagreements=ndis,
+        how="driver op `event` builds the error chain from four addresses (every IPv4/IPv6 combination per shape) and returns "
+            "err.Error() and the String() of EventOnOfferCreated / EventOnBrokerRendezvous / EventOnSnowflakeConnectionFailed; "
+            "each string is compared with the model (event_string = fixed text ++ scrub) and judged by the coverage predicate")
+
+
+def bare_ip_v6(rng):
+    while True:
+        t, k = ip6(rng)
+        try:
+            ipaddress.IPv6Address(t)
+            return t
+        except ValueError:
+            continue
+
+
+WIRING_PROBES = ["probe-c07 from 203.0.113.7:4433 to [2001:db8::7]:443 via 198.51.100.23, fe80::1 end",
+                 "probe-c07 dial tcp 192.0.2.99:9001: connect: connection refused",
+                 "probe-c07 http2: panic serving [2620:101:f000:780:9097:75b1:519f:dbb8]:58344: x",
+                 "probe-c07 a=candidate:1 1 udp 2130706431 10.11.12.13 5000 typ host ::ffff:10.11.12.13"]
+
+# binary -> (package, base arguments that let main() run offline, flags it has)
+WIRING = {
+    "broker": ("./broker", ["-disable-tls", "-disable-geoip", "-addr", "127.0.0.1:0"], dict(log=False, verbose=False)),
+    "client": ("./client", [], dict(log=True, verbose=False)),
+    "proxy": ("./proxy", ["-broker", "http://127.0.0.1:1/", "-stun", "stun:127.0.0.1:1", "-relay", "wss://127.0.0.1:1/"],
+              dict(log=True, verbose=True)),
+    "server": ("./server", ["-disable-tls"], dict(log=True, verbose=False)),
+    "probetest": ("./probetest", ["-disable-tls", "-addr", "127.0.0.1:0"], dict(log=False, verbose=False)),
+}
+# which sinks the standard logger must reach: (binary, has -log, has -verbose) -> {sink}
+def expected_sinks(binary, log, verbose):
+    if binary == "client":
+        return {"logfile"} if log else set()                    # never stderr (tor does not read it)
+    if binary == "proxy":
+        return ({"stderr"} if verbose else set()) | ({"logfile"} if log else set())
+    if binary == "server":
+        return {"logfile"} if log else {"stderr"}
+    return {"stderr"}
+
+
+def wiring_variant(exe, binary, unsafe, log, verbose):
+    """one run of the real main() of `binary`; returns dict(case, args, sinks | error)"""
+    import json as _json
+    import shutil
+    import subprocess
+    import tempfile
+    base = WIRING[binary][1]
+    tmp = tempfile.mkdtemp(prefix="verif-c07-wiring")
+    try:
+        logf = os.path.join(tmp, "the.log")
+        args = list(base) + (["-log", logf] if log else []) + (["-verbose"] if verbose else []) + (["-unsafe-logging"] if unsafe else [])
+        env = dict(os.environ, VERIF_WIRING_ARGS=_json.dumps(args), VERIF_WIRING_PROBES=_json.dumps(WIRING_PROBES),
+                   VERIF_WIRING_LOG=logf if log else "",
+                   TOR_PT_MANAGED_TRANSPORT_VER="1", TOR_PT_STATE_LOCATION=os.path.join(tmp, "state"),
+                   TOR_PT_CLIENT_TRANSPORTS="snowflake", TOR_PT_SERVER_TRANSPORTS="snowflake",
+                   TOR_PT_SERVER_BINDADDR="snowflake-127.0.0.1:0", TOR_PT_ORPORT="127.0.0.1:1")
+        env.pop("TOR_PT_EXIT_ON_STDIN_CLOSE", None)
+        shown = " ".join(a if a != logf else "<log>" for a in args)
+        res = dict(case="wiring %s %s" % (binary, shown or "(no arguments)"), shown=shown, binary=binary, unsafe=unsafe, log=log, verbose=verbose)
+        try:
+            r = subprocess.run([exe, "-test.run", "^TestVerifC07Wiring$"], env=env, cwd=tmp, capture_output=True, timeout=180)
+        except subprocess.TimeoutExpired:
+            res["error"] = "did not finish within 180 s"
+            return res
+        m = re.search(rb"@@wiring stderr=(\S+) logfile=(\S+)", r.stdout)
+        if not m:
+            e = re.search(rb"@@wiring error=(\S+)", r.stdout)
+            res["error"] = ("did not reach the point where logging is configured: " +
+                            (bytes.fromhex(e.group(1).decode()).decode("latin1") if e else (r.stdout[-300:] + r.stderr[-300:]).decode("latin1")))
+            return res
+        res["sinks"] = dict(stderr=unhex(m.group(1).decode()), logfile=unhex(m.group(2).decode()))
+        return res
+    finally:
+        shutil.rmtree(tmp, ignore_errors=True)
+
+
+def judge_wiring(res):
+    """-> (violations [(key, what, replay)], notes [str], summary) of one wiring_variant result"""
+    binary, case = res["binary"], res["case"]
+    viol, notes, got = [], [], {}
+    raw = [L1(p) for p in WIRING_PROBES]
+    for sink, content in res["sinks"].items():
+        lines = [l[l.index(b"probe-c07"):] for l in content.split(b"\n") if b"probe-c07" in l]
+        got[sink] = lines
+        if not lines or res["unsafe"]:
+            continue                                  # -unsafe-logging: anything goes
+        if len(lines) != len(raw):
+            notes.append("log wiring: `%s`: the sink `%s` received %d of the %d probe lines" % (case, sink, len(lines), len(raw)))
+            continue
+        for want, line in zip(raw, lines):
+            if leaks(want + b"\n", line + b"\n"):
+                viol.append(("log-sink-unscrubbed:" + binary,
+                             "%s %s: the sink `%s` of the standard logger is not behind the scrubber: the line %r arrived as %r"
+                             % (binary, res["shown"], sink, want.decode("latin1"), line.decode("latin1")),
+                             dict(label="log-wiring", case=case, binary=binary, unsafe=res["unsafe"], log=res["log"], verbose=res["verbose"],
+                                  sink=sink, received=line.decode("latin1"))))
+                break
+    reached = {k for k, v in got.items() if v}
+    want_sinks = expected_sinks(binary, res["log"], res["verbose"])
+    if not want_sinks <= reached:
+        notes.append("log wiring: `%s`: the probe lines did not reach %s (reached: %s); the wiring cannot be judged"
+                     % (case, sorted(want_sinks - reached), sorted(reached) or "nothing"))
+    return viol, notes, dict(reached=sorted(reached), unsafe=res["unsafe"],
+                             scrubbed={k: all(b"[scrubbed]" in l for l in v) for k, v in got.items() if v})
+
+
+def log_wiring(ctx):
+    """The log wiring of the five mains, on the real main(): an overlay test of each package main (zz_verif/wiring) calls
+    main() with an offline command line, waits until it has configured the standard logger, writes probe lines with
+    addresses through log.Print and reports what the process's stderr and the -log file received.
+    Model: every sink of the standard logger is behind the LogScrubber unless -unsafe-logging was given."""
+    runs = {}
+    for binary, (pkg, base, has) in WIRING.items():
+        try:
+            exe = vlib.go_test_build(pkg, name="c07_wiring_%s.test" % binary)
+        except vlib.GoBuildError as e:
+            ctx.not_shown("log wiring of %s: the overlay test of the main package does not build: %s" % (binary, str(e)[-400:]))
+            continue
+        for unsafe in (False, True):
+            for log in ((False, True) if has["log"] else (False,)):
+                for verbose in ((False, True) if has["verbose"] else (False,)):
+                    res = wiring_variant(exe, binary, unsafe, log, verbose)
+                    ctx.count(res["case"], kind="wiring-%s%s%s%s" % (binary, "-log" if log else "", "-verbose" if verbose else "", "-unsafe" if unsafe else ""))
+                    if "error" in res:
+                        ctx.not_shown("log wiring: `%s` %s" % (res["case"], res["error"]))
+                        continue
+                    viol, notes, summary = judge_wiring(res)
+                    for key, what, rp in viol:
+                        ctx.violation(key, what, rp)
+                    for n in notes:
+                        ctx.not_shown(n)
+                    runs[res["case"]] = summary
+    ctx.extra["log_wiring"] = dict(
+        approach="dynamic for all five mains (broker, client, proxy, server, probetest): real main() in-process up to log.SetOutput, "
+                 "probe lines through the standard logger, sinks = process stderr and the -log file; every combination of "
+                 "-log / -verbose / -unsafe-logging the binary has",
+        runs=runs,
+        not_covered="proxy: the event logger's own writer (eventlogOutput: stderr and the -log file, not behind the scrubber by "
+                    "design) only receives the periodic traffic summary (numbers and units); it is not reached by the standard "
+                    "logger and is not judged here")
 
 
 V0_WITNESSES = ["scrub " + hx(b"1.2.3.4 5.6.7.8\n"), "scrub " + hx(b"::a:b:c:d:e:f:abcd\n"), "scrub " + hx(b"[::1:2:3:4:5:6:7]\n"),
@@ -907,7 +1467,9 @@ def long_lines(ctx, exe):
 def run(ctx):
     ctx.trusted += ["harness/overlay/zz_verif/regex2coq (Go regexp/syntax parser -> Coq term) and the in-package pattern dump",
                     "Go's regexp engine: modelled by the leftmost-first backtracking matcher of coq/Model/Regex.v, tied by correspondence only",
-                    "python's ipaddress module decides what counts as an address in the failing-input search"]
+                    "python's ipaddress module decides what counts as an address in the failing-input search",
+                    "harness/overlay/zz_verif/wiring + <main>/zz_verif_c07_wiring_test.go: main() is run inside a test binary with "
+                    "os.Stderr replaced by a file; what the probe lines show is the wiring of log.SetOutput for the exercised flag sets"]
     ctx.assumptions += ["model = coq/Model/{Regex,RegexIncl,Scrub}.v over the GENERATED coq/Gen/SafelogPatterns.v",
                         "lines of 3000-20000 bytes (kinds lwrite-implonly-*): every splitting is judged on the implementation only (no surviving "
                         "address, complete lines only, output independent of the write boundaries); the model is compared once per stream "
@@ -930,6 +1492,8 @@ def run(ctx):
     pinned_witnesses(ctx, exe, [l for l in lines if all(b < 0x80 for b in unhex(l.split(" ")[2][1:] or "-"))])
     inclusion_counterword(ctx, exe)
     spec_vs_net(ctx, exe)
+    event_strings(ctx, exe)
+    log_wiring(ctx)
     # writes: output must not depend on the splitting
     lines, kinds, groups = [], [], {}
     gen_write(ctx, add, groups)
@@ -943,6 +1507,12 @@ def run(ctx):
     cexe = vlib.go_build("./zz_verif/safelog", race=True) if race else exe
     ctx.correspond(cexe, lines, kinds, label="concurrent-writers", prop=prop, key_of=key_of, crosscheck=3)
     ctx.extra["exact_expectations"] = len(EXACT)
+    ctx.extra["coverage_predicate"] = dict(
+        COVER_STATS, strict_dotted_run=STRICT_DOTTED,
+        how="per complete line: the output is read in every possible way as the input with non-empty ranges replaced by "
+            "the placeholder; every bounded address of the input (python ipaddress) must lie inside one replaced range in "
+            "some reading (all but a final ':' when whitespace follows); occurrences that continue a dotted run "
+            "(digit '.' before a dotted quad) are excluded as in C07_covers_all unless VERIF_C07_STRICT=1")
     # one violation of every distinct key first (the replay file keeps the first 20)
     seen, first, rest = set(), [], []
     for v in ctx.violations:
@@ -958,6 +1528,25 @@ def replay(ctx, doc):
     exe = vlib.go_build("./zz_verif/safelog")
     bad = 0
     for v in doc.get("violations", []):
+        rp = v["replay"]
+        if rp.get("label") == "log-wiring":
+            b = rp["binary"]
+            res = wiring_variant(vlib.go_test_build(WIRING[b][0], name="c07_wiring_%s.test" % b), b, rp["unsafe"], rp["log"], rp["verbose"])
+            viol = judge_wiring(res)[0] if "sinks" in res else []
+            print("case: %s\n property: %s" % (rp["case"], viol[0][1] if viol else res.get("error", "holds")))
+            bad += 1 if viol else 0
+            continue
+        if rp.get("label") == "event-strings":
+            rc, r, err = vlib.run_impl(exe, [rp["case"]])
+            m = re.fullmatch(r"e=(\S+) o=(\S+) b=(\S+) f=(\S+)", r[0] if r else "")
+            print("case: %s\n impl:  %s" % (rp["case"][:300], (r[0] if r else "!died")[:600]))
+            if m:
+                etxt = unhex(m.group(1))
+                for t, g in zip("obf", m.groups()[1:]):
+                    lk = leaks(EVENT_PREFIX[t][1] + etxt, unhex(g))
+                    print(" %s event: %r: %s" % (EVENT_PREFIX[t][0], unhex(g).decode("latin1"), lk[1] if lk else "holds"))
+                    bad += 1 if lk else 0
+            continue
         for case in (v["replay"].get("case"), v["replay"].get("other")):
             if not case:
                 continue
